@@ -112,7 +112,7 @@ def _gate_loop(fi: FuncInfo) -> ast.For:
     return loops[0]
 
 
-def check_uncompute(ctx: Ctx):
+def check_uncompute(ctx: Ctx, replay_rule: bool = True):
     fi = ctx.repo.func(f"{QE}.uncompute")
     loop = _gate_loop(fi)
     binds = single_bindings(fi)
@@ -147,7 +147,7 @@ def check_uncompute(ctx: Ctx):
     else:
         ctx.check(in_else and (par + par2) % 2 == 0, "MP-rebuild", fi, "gates_computed = gates not replayed, original order", f"{par}+{par2} reversals", f"gates_computed is rebuilt from `{norm(core2)}` ({par}+{par2} reversals, kept under {fk if keep_app and apps else '?'}): it must hold exactly the non-replayed gates in their original order (a later uncompute would replay in the wrong order or replay undone gates)", st[0])
     # TS-REPLAY: a gate that stays recorded for a later replay must not be controlled by a qubit released here
-    if keep_app and apps:
+    if keep_app and apps and replay_rule:
         fk_all = [(norm(e), pol) for e, pol in guard_facts(fi, keep_app[0], duals=True)]
         looks_at_controls = any(ws in f and f"{ws}[-1]" not in f for f, pol in fk_all) or any(f"{ws}[:-1]" in f or f"{ws}[0:-1]" in f for f, pol in fk_all)
         ctx.check(looks_at_controls, "TS-REPLAY", fi, "gates kept for a later replay are not controlled by a qubit released now", "", f"a gate is kept in gates_computed whenever its TARGET `{ws}[-1]` is not being uncomputed; its controls are not looked at, so gates controlled by the ancillas released here stay recorded and are replayed by the final pass when those qubits hold something else (they are recycled by get_free_ancilla, possibly as an output qubit)", keep_app[0])
@@ -282,6 +282,10 @@ def check_mark_operands(ctx: Ctx):
         same_list = bool(mcx) and over == norm(mcx[0].args[0])
         early = [s for s in body[emit[0] : mi] if any(isinstance(x, ast.Return) for x in ast.walk(s))]
         cond = not isinstance(ms, (ast.Expr, ast.For))
+        mk = [c for c in q.calls(ms) if dotted(c.func) == "qc.mark_ancilla"]
+        filt = [norm(e) for c in mk for e, pol in guard_facts(m, c) if q.contains(ms, e)]
+        if filt:
+            ctx.fail("TS-ANC", m, "every operand qubit is marked (mark_ancilla itself ignores non-ancillas)", f"operands are marked only under {filt}: an operand held on an anonymous scratch qubit that fails this filter (a `__x` temporary is a Symbol on an ancilla) is never uncomputed by the per-expression pass, and the final replay undoes at most its last gate", mk[0])
         ctx.check(same_list and not early and not cond and mi > emit[-1], "TS-ANC", m, "operand qubits are marked for uncomputation on every path after the gates are emitted", f"mark_ancilla over `{over}` is an unconditional statement after the emission", f"between the gate emission and `mark_ancilla` over `{over}` the routine can return ({[norm(e)[:40] for e in early]}) or the marking is conditional: the scratch qubits holding the operands are then never uncomputed by the per-expression pass", ms)
     cn = ic.methods.get("compile_not")
     br = [n for n in walk_no_nested(cn.node) if isinstance(n, ast.Call) and dotted(n.func) == "qc.cx"]
